@@ -8,5 +8,5 @@ type Version struct {
 }
 
 func (pv Version) String() string {
-	return fmt.Sprintf("%d.%d.%d", pv.Major, pv.MinorAndRev>>4, pv.MinorAndRev&3)
+	return fmt.Sprintf("%d.%d.%d", pv.Major, pv.MinorAndRev>>4, pv.MinorAndRev&0xF)
 }
